@@ -87,10 +87,8 @@ func runC20(c *Ctx) {
 			w := lf.AfterEdgesMustPass(act, func(n ast.Node) bool { return len(s1) == 1 && n == s1[0].N }, nil)
 			w2 := lf.MayReach(s1, nil, func(n ast.Node) bool { return len(s1) == 1 && n == s1[0].N })
 			okLoop = len(s1) == 1 && len(act) > 0 && w == nil && w2 == nil
-			for _, st := range loop.Body.List {
-				if br, ok := st.(*ast.BranchStmt); ok && br.Tok.String() == "break" {
-					okLoop = false
-				}
+			if exitsLoopEarly(loop.Body) {
+				okLoop = false
 			}
 		}
 		c.Check(okLoop, "every-active-subscriber-once", "each subscriber in the snapshot is signalled exactly once if it is active; no early exit from the loop", c.P.Pos(pt.Decl.Pos()), "snapshot loop shape changed")
@@ -181,4 +179,35 @@ func runC20(c *Ctx) {
 			}
 		}
 	})
+}
+
+// exitsLoopEarly: the loop body contains a break that leaves this loop, a return, a goto or a labelled branch.
+func exitsLoopEarly(body *ast.BlockStmt) bool {
+	early := false
+	var walk func(n ast.Node, breakable bool)
+	walk = func(n ast.Node, breakable bool) {
+		ast.Inspect(n, func(m ast.Node) bool {
+			if m == nil || m == n {
+				return true
+			}
+			switch x := m.(type) {
+			case *ast.FuncLit:
+				return false
+			case *ast.ForStmt, *ast.RangeStmt, *ast.SwitchStmt, *ast.TypeSwitchStmt, *ast.SelectStmt:
+				walk(x, true)
+				return false
+			case *ast.ReturnStmt:
+				early = true
+			case *ast.BranchStmt:
+				if x.Label != nil || x.Tok.String() == "goto" {
+					early = true
+				} else if x.Tok.String() == "break" && !breakable {
+					early = true
+				}
+			}
+			return true
+		})
+	}
+	walk(body, false)
+	return early
 }
